@@ -792,6 +792,8 @@ func (rs *runState) missingClass(fs *fileState, st map[string]int64) string {
 		c += ".after-empty-peer-lookup"
 	case st != nil && st["dropped"] > 0:
 		c += ".after-queue-drop"
+	case st != nil && st["failed"] > 0:
+		c += ".after-gave-up-pull"
 	}
 	return c
 }
